@@ -424,55 +424,6 @@ func malformedList() []malformed {
 		addRaw("lenient:content-length-conflicting", "Content-Length: 3 and Content-Length: 4", start+"Content-Length: 3\r\nContent-Length: 4\r\n\r\nabcd", client, false)
 		addRaw("lenient:content-length-with-chunked", "Content-Length with Transfer-Encoding: chunked", start+"Content-Length: 3\r\nTransfer-Encoding: chunked\r\n\r\n3\r\nabc\r\n0\r\n\r\n", client, false)
 	}
-	// every structural CRLF with its CR or its LF removed
-	plain := func(n int) []byte { return bytes.Repeat([]byte("d"), n) }
-	host := []httpgen.Hdr{{Name: "Host", Val: " h"}, {Name: "X-A", Val: " v"}}
-	reqBases := []*httpgen.Msg{
-		(&httpgen.Req{Method: "GET", Target: "/", Version: "HTTP/1.1", Headers: host}).Build(),
-		(&httpgen.Req{Method: "POST", Target: "/", Version: "HTTP/1.1", Headers: host, Body: httpgen.Body{Kind: httpgen.BodyCL, Data: plain(3)}}).Build(),
-		(&httpgen.Req{Method: "POST", Target: "/", Version: "HTTP/1.1", Headers: host, Body: httpgen.Body{Kind: httpgen.BodyChunked, Chunks: [][]byte{plain(3)}}}).Build(),
-		(&httpgen.Req{Method: "POST", Target: "/", Version: "HTTP/1.1", Headers: host, Body: httpgen.Body{Kind: httpgen.BodyChunked, Chunks: [][]byte{plain(1), plain(2)}, Ext: ";x=y", Declared: "A, B-c", Trailers: []httpgen.Hdr{{Name: "A", Val: " 1"}, {Name: "B-c", Val: " 22"}}}}).Build(),
-		(&httpgen.Req{Method: "POST", Target: "/", Version: "HTTP/1.1", Headers: host, Body: httpgen.Body{Kind: httpgen.BodyChunked, Chunks: [][]byte{plain(10), plain(11)}, Declared: "A", Trailers: []httpgen.Hdr{{Name: "A", Val: " 1"}}}}).Build(),
-	}
-	resBases := []*httpgen.Msg{
-		(&httpgen.Res{Version: "HTTP/1.1", Status: "200 OK", Headers: host[1:], Body: httpgen.Body{Kind: httpgen.BodyCL, Data: plain(3)}}).Build(),
-		(&httpgen.Res{Version: "HTTP/1.1", Status: "404 Not Found", Headers: host[1:], Body: httpgen.Body{Kind: httpgen.BodyChunked, Chunks: [][]byte{plain(1), plain(2)}, Ext: ";x=y", Declared: "A", Trailers: []httpgen.Hdr{{Name: "A", Val: " 1"}}}}).Build(),
-		(&httpgen.Res{Version: "HTTP/1.1", Status: "204 No Content", Headers: host[1:]}).Build(),
-	}
-	// a body whose bytes look like chunk framing: with the CR of the first chunk-size line
-	// removed, a parser that swallows the bare LF into a chunk extension finds a consistent
-	// (but different) chunk sequence behind it
-	reqBases = append(reqBases, (&httpgen.Req{Method: "POST", Target: "/", Version: "HTTP/1.1", Headers: host, Body: httpgen.Body{Kind: httpgen.BodyChunked, Chunks: [][]byte{[]byte("abc"), []byte("0\r\n\r\n")}, Ext: ";x"}}).Build())
-	resBases = append(resBases, (&httpgen.Res{Version: "HTTP/1.1", Status: "200 OK", Headers: host[1:], Body: httpgen.Body{Kind: httpgen.BodyChunked, Chunks: [][]byte{[]byte("abc"), []byte("0\r\n\r\n")}, Ext: ";x"}}).Build())
-	for _, set := range []struct {
-		ms     []*httpgen.Msg
-		client bool
-		tails  []string
-	}{{reqBases, false, []string{tailReq, "\r\n" + tailReq}}, {resBases, true, []string{tailRes, "\r\n" + tailRes}}} {
-		for bi, m := range set.ms {
-			for i := 0; i+1 < len(m.B); i++ {
-				if m.B[i] != '\r' || m.B[i+1] != '\n' {
-					continue
-				}
-				line := m.KindAt(i)
-				if line == "chunk-data" || line == "body" {
-					continue // payload bytes are opaque, a CRLF inside them is not framing
-				}
-				for _, which := range []string{"CR", "LF"} {
-					del := i
-					if which == "LF" {
-						del = i + 1
-					}
-					for ti, tail := range set.tails {
-						s := append(append([]byte(nil), m.B[:del]...), m.B[del+1:]...)
-						s = append(s, tail...)
-						out = append(out, malformed{stream: s, marks: m.Marks, client: set.client, kind: "missing-" + which + " line=" + line,
-							desc: fmt.Sprintf("base %d: %s removed at offset %d (%s), continuation %d", bi, which, del, line, ti), judged: true})
-					}
-				}
-			}
-		}
-	}
 	return out
 }
 
